@@ -82,6 +82,10 @@ INT_KINDS = {
     "member": ("s := NS_TY.{ n = 3 };", "s.n", False),
     "runtime-param": (None, "k", False),
     "arith-runtime": ("m1 : TY = 2;", "m1 + 1", False),
+    # globals that are not const themselves (the declaration has to be reported, with or without a type annotation)
+    "global-of-call-annotated": ("GLOBAL:GBC_UID : TY : three_TY();", "GBC_UID", False),
+    "global-of-call": ("GLOBAL:GBU_UID :: three_TY();", "GBU_UID", False),
+    "global-of-bad-global-annotated": ("GLOBAL:GBD_UID : TY : three_TY();\nGBE_UID : TY : GBD_UID;", "GBE_UID", False),
     "literal-arith": ("", "1 + 2", None),
     "paren-literal": ("", "(3)", None),
     "bare-comptime": ("", "comptime { 3 }", None),
@@ -117,7 +121,10 @@ def int_cases():
             decls = ""
             ty = {"array-length": "usize", "discriminant": "u8", "comptime-arg": "i64"}[pos]
             setup = setup0.replace("TY", ty) if setup0 is not None else None
-            expr = expr0.replace("TY", ty)
+            expr = expr0.replace("TY", ty).replace("UID", str(uid))
+            gdecl = ""
+            if setup is not None and setup.startswith("GLOBAL:"):
+                gdecl, setup = setup[len("GLOBAL:"):].replace("UID", str(uid)) + "\n", ""
             if pos == "array-length":
                 use = f"arr : [{expr}]i32; arr[2] = 7; pr(i64.(arr.len)); pr(i64.(arr[2]));"
                 exp = "3 7 "
@@ -132,6 +139,7 @@ def int_cases():
                 body = f"h{uid}(3);"
             else:
                 body = (setup + "\n" if setup else "") + use
+            decls = gdecl + decls
             cases.append(Case(f"int/{kind}/{pos}", body, exp if const else None, decls=decls, accept=const,
                               reject_re=None if const else "compile-time|constant|const"))
     # comptime parameter used in const positions
